@@ -75,10 +75,50 @@ def window(mine, inv, ret):
     return lo, max(lo, hi)
 
 
+def sync_durability(out, ops):
+    """C02 at the moment of acknowledgement: when the leader of a commit group re-acquires the mutex after its log I/O, every
+    byte of the log must be covered by an fsync if the group contains a sync write (that write is acknowledged next, and a power
+    failure right then keeps only what was fsynced).  The group is read off the writer queue printed by consecutive `cs` lines."""
+    problems = []
+    cur_q = []
+    cur_op = {}          # tid -> (n, sync) of the write in flight
+    prev_ls = None
+    nsync_groups = 0
+    for line in out.split('\n'):
+        f = line.split()
+        if not f:
+            continue
+        if f[0] == 'inv' and f[3] in ('P', 'D', 'B'):
+            cur_op[int(f[1])] = (int(f[2]), f[-2] == '1')
+        elif f[0] == 'cs':
+            kv = dict(x.split('=', 1) for x in f[3:] if '=' in x)
+            q = [] if kv['q'] == '.' else [int(x.rstrip('d')) for x in kv['q'].split(',')]
+            ls = int(kv['ls'])
+            t = int(f[1])
+            if prev_ls is not None and ls > prev_ls and 'loglen' in kv:
+                # a commit: the leader popped a prefix of the queue
+                npop = len(cur_q) - len(q)
+                group = cur_q[:npop] if npop > 0 and cur_q[npop:] == q else [t]
+                syncers = [m for m in group if cur_op.get(m, (0, False))[1]]
+                if syncers:
+                    nsync_groups += 1
+                    if int(kv['synced']) < int(kv['loglen']) and kv.get('err') == '0':
+                        n = cur_op[syncers[0]][0]
+                        rc = ops.get((syncers[0], n), {}).get('res')
+                        if rc is None or rc == ['0']:
+                            problems.append('VIOLATION[syncdurable] the sync write #%d of thread %d was committed in a group led by thread %d while only %s of the %s log bytes '
+                                            'were covered by an fsync: it is acknowledged although a power failure now would lose it' % (n, syncers[0], t, kv['synced'], kv['loglen']))
+            prev_ls = ls
+            cur_q = q
+    return problems, nsync_groups
+
+
 def check(out):
     thr, ops, final, done, problems = parse(out)
+    sp, nsg = sync_durability(out, ops)
+    problems += sp[:2]
     ws = writer_states(thr, ops)
-    stats = {'ops': len(ops), 'reads': 0, 'snapshots': 0, 'scans': 0, 'writes': 0, 'overlapping_reads': 0}
+    stats = {'ops': len(ops), 'reads': 0, 'snapshots': 0, 'scans': 0, 'writes': 0, 'overlapping_reads': 0, 'sync_groups_checked': nsg}
     for o in ops.values():
         if o['ret'] is None:
             problems.append('VIOLATION[stuck] operation %s of thread %d never returned' % (o['op'], o['tid']))
